@@ -795,7 +795,9 @@ func analyseGuardCoverage(as AnalysisSpec, progs []*Program, cs *Contracts, func
 			}
 			fk := p.FuncKey(fn)
 			o := &OblResult{Name: fk + "/guard-coverage:" + sk, Kind: "guarded-access", Func: fk, Backend: "ssa-walker", Result: "discharged", Desc: "accessor of guarded field " + sk + "." + touches + " is verified"}
-			if !verified[fk] {
+			if !verified[fk] && cs.Funcs[fk] == nil && InlinedEverywhere(p, fn) && callersVerified(p, fn, verified, 0) {
+				o.Desc += " (inside each of its verified callers)"
+			} else if !verified[fk] {
 				o.Result, o.Why = "failed", "function touches guarded field "+touches+" but is not verified"
 			}
 			ar.Obls = append(ar.Obls, o)
@@ -951,6 +953,32 @@ func init() {
 // timerArm: is the channel operand of a select case a timer built from the call's FContext timeout?
 // Accepted shapes: ctx.Done() where ctx is the first result of ToContext(fctx); time.After(fctx.Timeout()).
 func timerArm(fn *ssa.Function, ch ssa.Value) (bool, string) {
+	// the channel may have been kept in a local that is assigned exactly once (deadlineC := ctx.Done())
+	for i := 0; i < 3; i++ {
+		u, isLoad := ch.(*ssa.UnOp)
+		if !isLoad || u.Op != token.MUL {
+			break
+		}
+		al, isAl := u.X.(*ssa.Alloc)
+		if !isAl || al.Referrers() == nil {
+			break
+		}
+		var stored ssa.Value
+		n := 0
+		for _, r := range *al.Referrers() {
+			if st, isSt := r.(*ssa.Store); isSt && st.Addr == ssa.Value(al) {
+				stored = st.Val
+				n++
+			}
+		}
+		if n != 1 {
+			break
+		}
+		ch = stored
+	}
+	if ct, isCT := ch.(*ssa.ChangeType); isCT {
+		ch = ct.X
+	}
 	call, ok := ch.(*ssa.Call)
 	if !ok {
 		return false, ""
@@ -1680,4 +1708,35 @@ func acquiresGuard(p *Program, fn *ssa.Function, guard string, seen map[*ssa.Fun
 		}
 	}
 	return ""
+}
+
+// callersVerified: every function that calls fn directly is verified in this run, or is itself a helper
+// inlined everywhere whose callers are.
+func callersVerified(p *Program, fn *ssa.Function, verified map[string]bool, depth int) bool {
+	if depth > 4 {
+		return false
+	}
+	any := false
+	for _, g := range p.All {
+		calls := false
+		for _, b := range g.Blocks {
+			for _, in := range b.Instrs {
+				if c, ok := in.(*ssa.Call); ok && c.Call.StaticCallee() == fn {
+					calls = true
+				}
+			}
+		}
+		if !calls {
+			continue
+		}
+		any = true
+		if verified[p.FuncKey(g)] {
+			continue
+		}
+		if InlinedEverywhere(p, g) && callersVerified(p, g, verified, depth+1) {
+			continue
+		}
+		return false
+	}
+	return any
 }
